@@ -131,6 +131,9 @@ func Gen(seed int64, index int, o GenOpts) *Case {
 	if v == 0 {
 		v = 1 + pick(3)
 	}
+	if o.Profile == "regular" {
+		v = VarLL
+	}
 	c.Cfg.Variant = v
 	var videoKind Kind = -1
 	nAudio := 0
@@ -370,6 +373,50 @@ func Gen(seed int64, index int, o GenOpts) *Case {
 	}
 	if o.Profile == "regular" {
 		c.Cfg.Variant = VarLL
+		if c.Cfg.SegmentCount < 7 {
+			c.Cfg.SegmentCount = 7
+		}
+		// PartMinDuration 50 ms .. 2 s, also off the 5 ms grid
+		switch pick(4) {
+		case 0:
+			c.Cfg.PartMin = time.Duration(50+pick(1951)) * time.Millisecond
+		case 1:
+			c.Cfg.PartMin = time.Duration(10+pick(100)) * 5 * time.Millisecond
+		case 2:
+			c.Cfg.PartMin = []time.Duration{50, 100, 200, 250, 333, 500, 1000, 2000}[pick(8)] * time.Millisecond
+		default:
+			c.Cfg.PartMin = time.Duration(50000+pick(450000)) * time.Microsecond
+		}
+		if lp.spec.Kind.IsVideo() {
+			fps := []float64{1, 2, 5, 10, 12, 15, 20, 23.976, 24, 25, 29.97, 30, 48, 50, 59.94, 60, 90, 100, 119.88, 120, 7, 13}[pick(22)]
+			ticks := int64(float64(lp.spec.ClockRate)/fps + 0.5)
+			lp.frameTicks = []int64{ticks}
+			fsec := float64(ticks) / float64(lp.spec.ClockRate)
+			rel := []float64{0.5, 1, 1, 2, 3, 1.5}[pick(6)]
+			lp.gop = int(rel*c.Cfg.SegMin.Seconds()/fsec + 0.5)
+			if lp.gop < 1 {
+				lp.gop = 1
+			}
+			c.Features[fmt.Sprintf("fps-%v", fps)] = true
+		}
+		// enough media for >= 3 segments and several parts per segment
+		need := 4 * c.Cfg.PartMin.Seconds() * 3
+		if totalSec < need {
+			totalSec = need
+		}
+		if lp.spec.Kind.IsVideo() {
+			g := float64(lp.gop) * float64(lp.frameTicks[0]) / float64(lp.spec.ClockRate)
+			if totalSec < 4.5*g {
+				totalSec = 4.5 * g
+			}
+		}
+		if totalSec > 120 {
+			totalSec = 120
+		}
+	}
+	if o.Profile == "size" {
+		c.Cfg.SegMaxSize = uint64(400 + pick(4000))
+		c.Features["small-max-size"] = true
 	}
 
 	// ---- events
